@@ -113,6 +113,12 @@ def gen_process_item(w, m):
         # the same model with its permeances re-expressed in other units through the public
         # Permeance.convert (a ProcessModel is a plain data class; units are a persisted column)
         item["reexpress"] = w.choice(["GPU", "SI"])
+        if item["reexpress"] == "GPU" and w.random() < 0.4:
+            item["reexpress_whole"] = True     # GPU values noted as whole numbers (Python ints)
+    elif w.random() < 0.08:
+        # a two-stage batch kept as ONE model: the second stage's clock restarts at 0 h
+        item["second_stage"] = {"steps": w.choice([1, 2, 3, 5]), "dt": wg.rnd(w, 0.05, 0.5, 3),
+                                "comp": [wg.rnd(w, max(0.02, comp[0] - 0.05), min(0.98, comp[0] + 0.05), 5), "weight"]}
     if item["cond"]["pp"] and not model.startswith("ideal") :
         item["cond"]["pp"] = min(item["cond"]["pp"], 0.1)
     return item
